@@ -46,9 +46,24 @@ int vnadata_set_z0_vector(vnadata_t *vdp,
     }
     ports = MAX(vdp->vd_rows, vdp->vd_columns);
     if (vdip->vdi_flags & VF_PER_F_Z0) {
+	double complex z0_copy[MAX(ports, 1)];
+
+	/*
+	 * The conversion frees the per-frequency vectors, and z0_vector
+	 * may point to one of them (vnadata_get_fz0_vector): copy first.
+	 */
+	if (ports > 0) {
+	    (void)memcpy((void *)z0_copy, (void *)z0_vector,
+		    ports * sizeof(double complex));
+	}
 	if (_vnadata_convert_to_z0(vdip) == -1) {
 	    return -1;
 	}
+	if (ports > 0) {
+	    (void)memcpy((void *)vdip->vdi_z0_vector, (void *)z0_copy,
+		    ports * sizeof(double complex));
+	}
+	return 0;
     }
     if (ports > 0) {
 	(void)memcpy((void *)vdip->vdi_z0_vector, (void *)z0_vector,
